@@ -27,6 +27,7 @@ def direct_specs(draw, tier):
         "bigshear": draw(st.sampled_from([0, 0, 0, 0, 0, 0, 0, 0, 0, 1])),
         "grid": draw(st.sampled_from([0, 2, 3, 4, 6])),
         "ns": draw(st.integers(1, 5)),
+        "many": draw(st.sampled_from([0] * 19 + [1])),  # occasionally a few hundred positions (size-dependent code paths, OpenMP)
         "np": draw(st.integers(1, 3)),
         "noise": draw(st.sampled_from([0.0, 0.0, 1e-9, 1e-8, 1e-7])),
         "symprec": draw(st.sampled_from([1e-5, 1e-5, 1e-3])),
@@ -123,6 +124,10 @@ def run_direct(spec):
         return Out(nontrivial=False, classes=["discarded_degenerate"])
     g = spec["grid"]
     ns = spec["ns"]
+    if spec.get("many"):
+        ns = int(rng.integers(130, 300))
+        if g:
+            g = 12  # enough grid sites for distinct positions; ties stay frequent
     ps = rng.integers(0, g, size=(ns, 3)) / g if g else rng.random((ns, 3))
     if spec["noise"]:
         ps = ps + rng.uniform(-1, 1, size=ps.shape) * spec["noise"] / np.linalg.norm(L, axis=1).max()
@@ -152,7 +157,8 @@ def run_direct(spec):
     lens = np.linalg.norm(L, axis=1)
     aspect = lens.max() / lens.min()
     return Out(ok=True, nontrivial=(mm >= 2 or reduced_nontrivial or aspect >= 5),
-               classes=[spec["kind"], "mult:%d" % mm, "noise" if spec["noise"] else "exact", "niggli_nontrivial" if reduced_nontrivial else "niggli_id"],
+               classes=[spec["kind"], "mult:%d" % mm, "noise" if spec["noise"] else "exact", "niggli_nontrivial" if reduced_nontrivial else "niggli_id"] +
+               (["many_positions"] if spec.get("many") else []),
                info={"max_multiplicity": mm})
 
 
